@@ -172,8 +172,17 @@ impl Completion for DynC {
     }
 }
 
+/// A completion behind `dyn ErasedCompletion + Send + Sync`.
+struct DynSS(Box<dyn ErasedCompletion + Send + Sync>);
+impl Completion for DynSS {
+    fn complete<P: Props>(&self, span: Span<P>) {
+        (*self.0).complete(span)
+    }
+}
+
 fn rec(id: String) -> DynC {
-    DynC(Box::new(completion::from_fn(move |span: Span<&dyn ErasedProps>| {
+    // (the other constructor: FromFn::new; the typed chains use completion::from_fn)
+    DynC(Box::new(completion::FromFn::new(move |span: Span<&dyn ErasedProps>| {
         let p = span.props();
         let v = json!({
             "cid": id, "op": CUR_OP.load(SeqCst),
@@ -210,6 +219,15 @@ fn leaked_err() -> &'static std::io::Error {
 fn mk(kind: &str) -> DynC {
     match kind {
         "rec1" | "rec2" | "rec3" => rec(kind.to_string()),
+        // the completion forms: behind a reference, behind the Send + Sync erased type,
+        // straight to an emitter, and the empty one
+        "recRef" => {
+            let c: &'static _ = Box::leak(Box::new(rec_typed("recRef")));
+            DynC(Box::new(c))
+        }
+        "recSS" => DynC(Box::new(DynSS(Box::new(rec_typed("recSS"))))),
+        "fromE" => DynC(Box::new(completion::from_emitter(RT.emitter()))),
+        "empty" => DynC(Box::new(Empty)),
         "dflt" => DynC(Box::new(completion::default(RT.emitter(), RT.ctxt()))),
         "dfltl" => DynC(Box::new(completion::default(RT.emitter(), RT.ctxt()).with_lvl(Level::Info))),
         "dfltp" => DynC(Box::new(completion::default(RT.emitter(), RT.ctxt()).with_panic_lvl(Level::Warn))),
@@ -347,6 +365,13 @@ fn terminal<T: Clock, P: Props, F: Completion>(g: SpanGuard<'static, T, P, F>, o
         "CompleteWith" if !typed => Some(cw(g, mk(a), pan)),
         "CompleteWith" => Some(match a {
             "rec3" => cw(g, rec_typed("rec3"), pan),
+            "recRef" => cw(g, &rec_typed("recRef"), pan),
+            "recSS" => {
+                let c: Box<dyn ErasedCompletion + Send + Sync> = Box::new(rec_typed("recSS"));
+                cw(g, &*c, pan)
+            }
+            "fromE" => cw(g, completion::FromEmitter::new(RT.emitter()), pan),
+            "empty" => cw(g, Empty, pan),
             "dflt" => cw(g, completion::default(RT.emitter(), RT.ctxt()), pan),
             "dfltl" => cw(g, completion::default(RT.emitter(), RT.ctxt()).with_lvl(Level::Info), pan),
             "dfltp" => cw(g, completion::default(RT.emitter(), RT.ctxt()).with_panic_lvl(Level::Warn), pan),
@@ -432,6 +457,22 @@ macro_rules! level {
                 "WithCompletion" => match a {
                     "rec2" => {
                         let g = g.with_completion(rec_typed("rec2"));
+                        note(obs, &g);
+                        $next(g, ops, i + 1, obs)
+                    }
+                    "recRef" => {
+                        let c: &'static _ = Box::leak(Box::new(rec_typed("recRef")));
+                        let g = g.with_completion(c);
+                        note(obs, &g);
+                        $next(g, ops, i + 1, obs)
+                    }
+                    "fromE" => {
+                        let g = g.with_completion(completion::FromEmitter::new(RT.emitter()));
+                        note(obs, &g);
+                        $next(g, ops, i + 1, obs)
+                    }
+                    "empty" => {
+                        let g = g.with_completion(Empty);
                         note(obs, &g);
                         $next(g, ops, i + 1, obs)
                     }
@@ -894,6 +935,8 @@ fn compare(case: &Value, obs: &Obs, is_macro: bool, drift: &mut Vec<Value>) -> V
     let calls = lock(&CALLS).clone();
     let clock_log = lock(&CLOCK).log.clone();
     let opaque = is_macro && case["form"] != "guard" && case["form"] != "newspan" && case["form"] != "none";
+    // the empty completion: the span completes (return value, state) with nothing to observe
+    let invisible = case["expect"].as_array().map(|e| e.len() == 1 && e[0]["cid"] == "empty").unwrap_or(false);
     for (i, op) in ops.iter().enumerate() {
         if i >= obs.n.len() {
             break;
@@ -912,7 +955,8 @@ fn compare(case: &Value, obs: &Obs, is_macro: bool, drift: &mut Vec<Value>) -> V
                     json!({"op_index": i, "want": want, "got": r})));
             }
         }
-        if !(opaque && i < 2) && obs.n[i] as u64 != op["n"].as_u64().unwrap() {
+        let want_n = op["n"].as_u64().unwrap() - if invisible && i + 1 == ops.len() { 1 } else { 0 };
+        if !(opaque && i < 2) && obs.n[i] as u64 != want_n {
             out.push((format!("{} completion call(s) after {name}, the statement says {}", obs.n[i], op["n"]),
                 json!({"op_index": i, "calls": calls})));
         }
@@ -924,6 +968,12 @@ fn compare(case: &Value, obs: &Obs, is_macro: bool, drift: &mut Vec<Value>) -> V
         }
     }
     let expect = case["expect"].as_array().unwrap();
+    if invisible {
+        if !calls.is_empty() {
+            out.push((format!("{} completion call(s) observed with the empty completion", calls.len()), json!({"calls": calls})));
+        }
+        return out;
+    }
     if calls.len() != expect.len() {
         out.push((format!("{} completion call(s) at the end, the statement says {}", calls.len(), expect.len()),
             json!({"calls": calls})));
@@ -980,7 +1030,8 @@ fn compare(case: &Value, obs: &Obs, is_macro: bool, drift: &mut Vec<Value>) -> V
             if c["kind"] != "span" {
                 diff.push(format!("evt_kind {} want span", c["kind"]));
             }
-            if case["frame"] == "in" {
+            // from_emitter hands the span to the emitter without the ambient context
+            if case["frame"] == "in" && cid != "fromE" {
                 let ids = lock(&IDS).clone();
                 if ids.is_none() || c["span_id"].as_str().map(|s| s.to_string()) != ids || c["trace_id"].is_null() {
                     diff.push(format!("ids {} / {} but the span's id is {:?}", c["trace_id"], c["span_id"], ids));
